@@ -118,17 +118,15 @@ def collectLoop (includeDir : Option String) : Nat → Collect → Except String
       | .error e => .error e
       | .ok (tree, errors) =>
         let filePath := c.paths.getD fileId ""
-        match Path.parent filePath with
-        | none => .error "file dir not found"
-        | some fileDir =>
-          let c := { c with fileSet := c.fileSet.push fileId }
-          let dirs := fileDir :: (match includeDir with | some d => [d] | none => [])
-          let (c, incMap) := (listIncludes tree).foldl (fun (st : Collect × List ((Nat × Nat) × Nat)) inc =>
-            match st.1.resolveIncludeFile inc.2 dirs with
-            | (some id, c') => ({ c' with queue := c'.queue ++ [id] }, st.2 ++ [(inc.1, id)])
-            | (none, c') => (c', st.2)) (c, [])
-          let info : FileInfo := { path := filePath, tree := tree, errors := errors, includeMap := incMap }
-          collectLoop includeDir fuel { c with infos := c.infos.set! fileId (some info) }
+        let c := { c with fileSet := c.fileSet.push fileId }
+        -- (a path without a parent, such as `/`, has no directory of its own to search)
+        let dirs := (Path.parent filePath).toList ++ (match includeDir with | some d => [d] | none => [])
+        let (c, incMap) := (listIncludes tree).foldl (fun (st : Collect × List ((Nat × Nat) × Nat)) inc =>
+          match st.1.resolveIncludeFile inc.2 dirs with
+          | (some id, c') => ({ c' with queue := c'.queue ++ [id] }, st.2 ++ [(inc.1, id)])
+          | (none, c') => (c', st.2)) (c, [])
+        let info : FileInfo := { path := filePath, tree := tree, errors := errors, includeMap := incMap }
+        collectLoop includeDir fuel { c with infos := c.infos.set! fileId (some info) }
 
 /-- `MemFs` + `build` of the harness + `AnalysisHost::set_root_file` -/
 def buildWorkspace (vfs : List (String × String)) (rootPath : String) (includeDir : Option String) :
